@@ -40,6 +40,8 @@ VERIF = os.path.dirname(HERE)
 LEAN_DIR = os.path.join(VERIF, 'lean', 'FalconModel')
 BIN_DIR = os.path.join(LEAN_DIR, '.lake', 'build', 'bin')
 REPO = os.environ.get('FALCON_REPO', '/repo')
+# when only a proof obligation / correspondence breaks: enlarge generation by this factor (fresh seed, 16 workers) to look for a failing input
+SEARCH_SCALE = {'quick': 5, 'thorough': 2}
 ALLOWED_AXIOMS = {'propext', 'Classical.choice', 'Quot.sound'}
 FORBIDDEN = re.compile(
     r'\bsorry\b|\badmit\b|^\s*axiom\s|native_decide|bv_decide|implemented_by|\bunsafe\s|maxHeartbeats\s+0')
@@ -430,7 +432,7 @@ def main():
         print('HARNESS ERROR:\n' + crashes[0])
     if not unlisted and tie_broken and not (res is not None and crashes):
         # broken proof / correspondence: not by itself a violation -> search for a concrete failing input
-        searched = run_shards(modname, prop, 'thorough' if tier == 'quick' else tier, seed + 7919, 10 if tier == 'quick' else 3, 16, searching=True)
+        searched = run_shards(modname, prop, tier, seed + 7919, SEARCH_SCALE[tier], 16, searching=True)
         u2, h2 = split(searched['oracle_failures'])
         unlisted = u2
         for k, v in h2.items():
@@ -472,7 +474,7 @@ def main():
         violations = len(unlisted)
         rp = os.path.join(VERIF, 'replays', f'{prop}_{tier}_{seed}.json')
         json.dump({'property': prop, 'seed': (seed if searched is None else seed + 7919), 'tier': tier,
-                   'scale': 1 if searched is None else (10 if tier == 'quick' else 3),
+                   'scale': 1 if searched is None else SEARCH_SCALE[tier],
                    'jobs': jobs if searched is None else 16, 'searching': searched is not None,
                    'failing_input': unlisted[0], 'more_failing_inputs': unlisted[1:10], 'total_failing': len(unlisted),
                    'tie': {'lean_ok': lean['ok'], 'correspondence_mismatches': res['n_mismatches'] if res else None,
